@@ -123,7 +123,7 @@ theorem sub_erase_reading {d d3 : Disk} (hs : SInv d) (v : Vol) (fsL : List LRec
     rw [filter_length_mid, filter_length_mid, hact, hinact]
     simp
   -- the reading of the written-back image
-  obtain ⟨hrd4, htree4, htot4, hbm4, hsz4, hshape4, hgeo4, hprev4, hslotok4, hsame4⟩ :=
+  obtain ⟨hrd4, htree4, htot4, hbm4, hsz4, hshape4, hgeo4, hprev4, hslotok4, hnames4, hsame4⟩ :=
     sub_patched_reading hs.inv v' fsL' ch' hr ht ex B k hxm hd sch hc ey B' k' hym f.owned hpatch
       (fun b hb' => by
         have hbs : b ∉ sch := fun hm => (hschf b hm).2.1 hb'
@@ -181,7 +181,7 @@ theorem sub_erase_reading {d d3 : Disk} (hs : SInv d) (v : Vol) (fsL : List LRec
   have hinv4 : Inv (wbRaw (delImageK raw1 B' (k' + 1) (le16 ex 0x11)) (hdrBm d.raw) (nbmOf (hdrTotal d.raw))
       (clearBit (clearBit buf1 B') (le16 ex 0x11))) :=
     ⟨hshape4, by rw [htot4, hsz4]; exact hsz, _, _, ch', hrd4, by rw [htot4]; exact htree4, hw4, hn4, hgeo4, hprev4, hroot.len,
-      hslotok4 (Or.inl he'0)⟩
+      hslotok4 (Or.inl he'0), hnames4⟩
   have hlen3 : ∀ i ∈ bmRange (hdrBm d.raw) (nbmOf (hdrTotal d.raw)),
       (unitAt (delImageK raw1 B' (k' + 1) (le16 ex 0x11)) i).length = blockSize := by
     intro i hi
